@@ -3,7 +3,7 @@
    barrier stages and handlers, any batch sizes, any interleaving (every reachable state). *)
 From Coq Require Import Arith Lia.
 From DC Require Import Disruptor.Pipeline.
-From DC Require Disruptor.HB.
+From DC Require Disruptor.HB Disruptor.MultiPub.
 
 (* in order, exactly once, no gaps: whenever a handler is about to handle a sequence, it is the successor of
    the last one it returned from (it starts at 1: see C04_seq0_never_delivered) *)
@@ -56,7 +56,14 @@ Theorem C04_delivery_percursor_stale_reads : forall N H stage last
   (forall g, g < H -> stage h < stage g -> HB.done s g < i) /\ HB.fill_ptr s <= i + N.
 Proof. exact HB.hb_delivery. Qed.
 
+(* multi producer, true concurrency (Disruptor/MultiPub.v): everything at or below the cursor - and consumers never
+   pass the cursor - has been completely written and published by its claimant, in every interleaving *)
+Theorem C04_multi_only_written_and_published : forall N, 1 <= N -> forall s,
+  MultiPub.reachable N s -> MultiPub.gate s <= MultiPub.cursor s /\ forall q, 1 <= q <= MultiPub.cursor s -> MultiPub.pub s q = true.
+Proof. exact MultiPub.consumers_see_only_published. Qed.
+
 Print Assumptions C04_in_order_exactly_once.
+Print Assumptions C04_multi_only_written_and_published.
 Print Assumptions C04_delivery_percursor_stale_reads.
 Print Assumptions C04_only_written_and_published.
 Print Assumptions C04_payload_intact.
